@@ -15,6 +15,18 @@ BASE = r'stone\.backends\.python_rsrc\.stone_base\.'
 PT = r'stone\.backends\.python_types\.'
 B = r'stone\.backends\.'
 
+# the parts of python_types the runtime coder depends on: validators, attribute
+# descriptors, reflection tables, subtype tag tables, defaults and their emission order
+PT_RUNTIME = PT + (r'(generate_validator_constructor|generate_func_call|_get_ancestor_omitted_callers|'
+                   r'PythonTypesBackend\.(_generate_struct_class_properties|'
+                   r'_generate_struct_class_reflection_attributes|'
+                   r'_generate_union_class_reflection_attributes|'
+                   r'_generate_enumerated_subtypes_tag_mapping|'
+                   r'_generate_struct_class_has_required_fields|'
+                   r'_generate_struct_attributes_defaults|_generate_python_value|'
+                   r'_generate_union_class_vars|_generate_base_namespace_module|'
+                   r'_generate_struct_class_slots|_generate_struct_class_init))$')
+
 OWN = {
     'C01': [F + r'lexer\.', F + r'parser\.', F + r'frontend\.',
             IG + r'(generate_IR|_populate_|_validate_|_merge_patches|_resolve_|_create_|_check_|'
@@ -30,19 +42,19 @@ OWN = {
             IG + r'(_instantiate_data_type|_populate_field_defaults|'
                  r'_populate_route_attributes_helper)',
             r'stone\.cli\.main$'],
-    'C04': [SER + r'\w+\.(encode_|decode_|determine_struct_tree_subtype|make_stone_friendly)',
+    'C04': [PT_RUNTIME, VAL + r'\w+\.validate\w*$', BASE + r'Attribute\.', SER + r'\w+\.(encode_|decode_|determine_struct_tree_subtype|make_stone_friendly)',
             SER + r'(json_|_strftime|_strptime|_make_)', BASE + r'(Struct|Union)\.__(eq|ne)__$'],
-    'C05': [SER + r'\w+\.encode', SER + r'_strftime'],
-    'C06': [SER + r'\w+\.(decode_|determine_struct_tree_subtype|make_stone_friendly)',
+    'C05': [PT_RUNTIME, VAL + r'\w+\.validate\w*$', BASE + r'Attribute\.', SER + r'\w+\.encode', SER + r'_strftime'],
+    'C06': [PT_RUNTIME, VAL + r'\w+\.validate\w*$', SER + r'\w+\.(decode_|determine_struct_tree_subtype|make_stone_friendly)',
             SER + r'json_(compat_obj_)?decode', VAL + r'Struct\.validate',
             BASE + r'(Attribute\.__set__|Union\.__init__)$'],
-    'C07': [SER + r'\w+\.(decode_struct|decode_struct_fields|decode_union|decode_union_dict|'
+    'C07': [PT_RUNTIME, SER + r'\w+\.(decode_struct|decode_struct_fields|decode_union|decode_union_dict|'
                   r'decode_union_old|determine_struct_tree_subtype)$',
             BASE + r'Attribute\.__get__$'],
-    'C08': [VAL + r'\w+\.(validate\w*|__init__)$', BASE + r'(Attribute\.__set__|Union\.__init__)$',
+    'C08': [PT_RUNTIME, VAL + r'\w+\.(validate\w*|__init__)$', BASE + r'(Attribute\.__set__|Union\.__init__)$',
             PT + r'(generate_validator_constructor|generate_func_call)$'],
     'C09': [PT, B + r'python_helpers\.', API + r'ApiNamespace\.get_imported_namespaces$'],
-    'C10': [DT + r'\w+\.(check|check_example|_compute_example\w*|get_examples|_add_example\w*|'
+    'C10': [PT_RUNTIME, DT + r'\w+\.(check|check_example|_compute_example\w*|get_examples|_add_example\w*|'
                  r'_has_example)$', IG + r'(_populate_field_defaults|_create_struct_field)$',
             PT + r'PythonTypesBackend\.(_generate_struct_attributes_defaults|'
                  r'_generate_python_value|_generate_struct_class_properties)$'],
@@ -52,7 +64,7 @@ OWN = {
                   r'get_namespaces_imported_by_route_io)$',
             r'stone\.backend\.Backend\.(clear_output_buffer|output_to_relative_path)$',
             B + r'python_type_stubs\.ImportTracker\.'],
-    'C13': [PT + r'PythonTypesBackend\.(_generate_struct_class_reflection_attributes|'
+    'C13': [PT_RUNTIME, PT + r'PythonTypesBackend\.(_generate_struct_class_reflection_attributes|'
                  r'_generate_union_class_reflection_attributes|_generate_redactor)$',
             PT + r'_get_ancestor_omitted_callers$',
             SER + r'\w+\.(encode_struct|encode_union|decode_struct|encode_sub)$',
